@@ -29,6 +29,9 @@ conjoined; filter_by and select_by apply the same selection (sibling
 cross-check). SELECT-ONE - select_by evaluated over the number of matches
 {0, 1, 2+}: NoItemBrowserError / the item / TooManyItemsBrowserError.
 MERGE-SHAPE - merge concatenates self.content + other.content.
+INDEX-BUILD - _build_index registers every item under all its keys but the
+data key with the enumerate position, and stores that position in the item
+BEFORE its keys are walked (or leaves 'index' out of the walk).
 Not decided: that the inverted index agrees with a naive scan of the items
 (value-level); hashing of metadata values.
 '''
@@ -52,6 +55,7 @@ def check(ctx):
     ctx.run(browser.check_select_one)
     ctx.run(browser.check_merge_shape)
     ctx.run(browser.check_brw_pure, analyzer)
+    ctx.run(browser.check_index_build)
     ctx.count('functions_analysed', analyzer.functions_analysed)
     ctx.count('call_sites_resolved', analyzer.calls_resolved)
 
@@ -319,4 +323,35 @@ def variants(program):
                 return True
         return False
     add('twin-positional-arguments', 'twin', kw_positional)
+    def index_stored_late(tree):
+        # seed C17-r2-3
+        fun = find_func(tree, 'Browser._build_index')
+        loop = next(n for n in ast.walk(fun) if isinstance(n, ast.For)
+                    and 'content' in txt(n.iter))
+        store = next((s_ for s_ in loop.body if isinstance(s_, ast.Assign)
+                      and "'index'" in txt(s_.targets[0])), None)
+        if store is None:
+            return False
+        loop.body.remove(store)
+        loop.body.append(store)
+        loop.body.append(parse_stmts("index['index'][ielt].add(ielt)")[0])
+        return True
+    add('seed-position-stored-after-the-keys-are-indexed', 'mutant',
+        index_stored_late, {'INDEX-BUILD'},
+        note='items of a sub-browser are indexed under their old position '
+             'too')
+
+    def index_apart(tree):
+        fun = find_func(tree, 'Browser._build_index')
+        loop = next(n for n in ast.walk(fun) if isinstance(n, ast.For)
+                    and 'content' in txt(n.iter))
+        loop.body[:] = parse_stmts(
+            "for key in elt:\n"
+            "    if key != self.data_key and key != 'index':\n"
+            "        index[key][elt[key]].add(ielt)\n"
+            "elt['index'] = ielt\n"
+            "index['index'][ielt].add(ielt)")
+        return True
+    add('twin-position-registered-apart', 'twin', index_apart)
+
     return out
